@@ -19,6 +19,10 @@ def _combo_scenarios(quick):
         tgt = dumps.base_target(3, regions=[{"name": "app0", "len": 3000, "lead": 5, "above": "hole"}, {"name": "code", "len": 8192, "exec": True}])
         w = {"blamed": {"slot": 0} if c["crash_context"] else "main", "app_memory": [{"addr": {"region": "app0"}, "len": 3000}], **c}
         scns.append({"id": f"combo{i}", "target": tgt, "writer": w, "faults": {"start": 5 + 3 * i, "pre_len": 400000 if i % 2 else 0}})
+    # an application region whose tail is unreadable (the copy is short): what the memory list says must still be what was written
+    tgt = dumps.base_target(2, regions=[{"name": "app0", "len": 3000, "lead": 5, "at_end": True, "above": "hole"}, {"name": "app1", "len": 64}, {"name": "code", "len": 8192, "exec": True}])
+    scns.append({"id": "combo-partial", "target": tgt, "faults": {"start": 9, "pre_len": 0},
+                 "writer": {"blamed": "main", "app_memory": [{"addr": {"region": "app0"}, "len": 3000 + 2 * 4096}, {"addr": {"region": "app1"}, "len": 64}]}})
     # stream sizes spanning magnitudes: multi-MiB application regions and a thread list section of > 1 MiB
     big = dumps.base_target(2, regions=[{"name": "big0", "len": 3 * 1024 * 1024 + 17, "lead": 3}, {"name": "big1", "len": 1536 * 1024}, {"name": "one", "len": 1},
                                         {"name": "code", "len": 8192, "exec": True}])
@@ -377,7 +381,7 @@ def _judge_threads(ck, evs, name, what, jobs=4):
         brief = {k: v for k, v in e.items() if k not in ("ctx", "regs", "supplied", "exc", "blamedCtx", "blamedRegs", "maps")}
         extra = ""
         if e["ev"] == "c04t":
-            bad = [f for f in e["ctx"] if f in e["regs"] and e["ctx"][f] != e["regs"][f] and f not in ("cs", "ds", "es", "fs", "gs", "ss", "eflags")]
+            bad = [f for f in e["ctx"] if f in e["regs"] and e["ctx"][f][:1 if f in ("cs", "ds", "es", "fs", "gs", "ss") else 4] != e["regs"][f][:1 if f in ("cs", "ds", "es", "fs", "gs", "ss") else 4] and f != "eflags"]
             extra = f" fields differing from the same-named register: {bad[:6]}"
         if e["ev"] == "c05" and e.get("withCtx") and "ctx" in e["exc"]:
             s, c = e["supplied"], e["exc"]["ctx"]
